@@ -645,6 +645,8 @@ declaratortypes(struct scope *s, struct list *result, char **name, struct scope 
 			while (consume(TSTATIC) || typequal(&t->u.array.ptrqual))
 				;
 			if (tok.kind == TMUL && peek(TRBRACK)) {
+				if (!allowabstract)
+					error(&tok.loc, "array of unspecified size is only allowed in function prototype scope");
 				t->prop |= PROPVM;
 				t->incomplete = false;
 			} else if (!consume(TRBRACK)) {
